@@ -5,6 +5,7 @@ package main
 import (
 	"flag"
 	"fmt"
+	"math/rand"
 	"os"
 )
 
@@ -20,6 +21,9 @@ func main() {
 		fmt.Fprintln(os.Stderr, "usage: observe [-seed n] [-tier t] <stream>...")
 		os.Exit(2)
 	}
+	// the library draws transaction ids from the global math/rand source: seeding it makes every
+	// stream reproduce the same cases for the same seed (needed by --replay)
+	rand.Seed(int64(*seed)) //nolint:staticcheck
 	for _, name := range flag.Args() {
 		s, ok := streams[name]
 		if !ok {
